@@ -68,6 +68,8 @@ def gather_rule(ctx, col, d, src_name, keys_exprs, what):
 
 def run(ctx, col, tier):
     repo = ctx.repo
+    from ..rules import endpoints as _endpoints
+    _endpoints.run(ctx, col, ('swcgeom.core.tree', 'swcgeom.core.path', 'swcgeom.core.branch', 'swcgeom.core.node', 'swcgeom.core.tree_utils', 'swcgeom.core.tree_utils_impl', 'swcgeom.core.swc_utils.base', 'swcgeom.core.swc_utils.subtree', 'swcgeom.core.swc_utils.normalizer', 'swcgeom.core.swc_utils.io'))
     from ..rules import stateless as _stateless_memo
     _stateless_memo.run_memo(ctx, col)
     from ..rules import smalllints as _small
